@@ -10,12 +10,14 @@ P("C25", [("K1", r"^k1_(c_db|c_bv|l_shift)"), ("K2", None), ("K2S", None)],
   "(fold_is_homomorphic); Kani/CBMC soundness.",
   "contract-based deductive verification: Kani function contracts (proof_for_contract + stub_verified), loop-free full-domain")
 
-P("C17", [("V1", None)],
+P("C17", [("V1", None), ("V13", None)],
   "proof",
   "Verus proves, on the verbatim text of Solution::combine and its helpers, the strongest functional postcondition "
-  "(r == spec_combine) and 'never claims more than either candidate'; commutativity is a lemma over that contract. Unbounded.",
-  "Assumed: derived PartialEq/Clone semantics, is_identity_subst / Constraints::is_empty abstract; first sentence of C17 "
-  "(anti-unification of many answers) is not reached by this unit.",
+  "(r == spec_combine) and 'never claims more than either candidate'; commutativity is a lemma over that contract; and on the verbatim text of "
+  "MayInvalidate::aggregate_tys that the check 'no future answer can change the guidance' answers false only when the new answer's type is an instance of the current guidance's type "
+  "(one level, for every pair of type constructors). Unbounded.",
+  "Assumed: derived PartialEq/Clone semantics, is_identity_subst / Constraints::is_empty abstract; the anti-unifier itself "
+  "(AntiUnifier::aggregate_tys / merge_into_guidance) is not reached; argument lists and constants are abstract in V13.",
   "contract-based deductive verification: Verus on mechanically extracted function text")
 
 P("C27", [("K5", None)],
